@@ -136,7 +136,7 @@ func main() {
 	}
 	sk := *solverKind
 	if sk == "" {
-		sk = "z3"
+		sk = "z3-new"
 	}
 	rep := Report{
 		Entry: *entry, Paths: ex.Paths, EndedPaths: ex.EndedPaths, PanicPaths: ex.PanicPaths,
